@@ -242,7 +242,15 @@ pub fn run_c11(rep: &Report) -> i32 {
                                         rep.violation(Violation {
                                             property: "C11".into(),
                                             kind: "later-solve-differs-from-fresh".into(),
-                                            site: format!("{}/{}", cfg.short(), pc.class),
+                                            // the order in which (tabled) answers reach the aggregator decides D1's
+                                            // non-linear guidance and D22's trivial answer; keep those apart
+                                            site: if super::c13::trivial_unique_vs_unknown(&a, &full) {
+                                                format!("{}/trivial-unique-vs-unknown", cfg.short())
+                                            } else if cfg.is_slg() && super::c13::nonlinear_only(&a, &full) {
+                                                format!("{}/nonlinear-only", cfg.short())
+                                            } else {
+                                                format!("{}/{}", cfg.short(), pc.class)
+                                            },
                                             what: format!(
                                                 "{} `{}`: after an interruption by {} (continuation step {}), {} = {:?}, fresh solver = {:?}",
                                                 cfg.name(), g.text, s.name(), ci,
